@@ -4,6 +4,12 @@ import json, os
 HERE = os.path.dirname(os.path.abspath(__file__))
 TECH = "explicit TLA+ specification model-checked with TLC; TLC-generated histories replayed into the real code; recorded traces validated by TLC against the trace specification"
 CHECKS = {
+ "C01": dict(engine="array", ref="5 C01, 3.4",
+   text="Layer A (ArraySeq.tla: the array as a plain sequence) and layer C (ArrayTree.tla: the slab-tree algorithm transcribed over element sizes) are model-checked together: in every reachable shape the tree flattens to the sequence, both routing procedures agree, reads agree. Every transition of that state graph (every insert/set/remove/get/pop position, including out-of-range requests) and TLC-simulated grow/churn/shrink walks at several slab sizes are replayed into the real Array; every recorded call must be explained by the sequence model (returned / previous element, count, type, root id, error class) and the projected slab forest must flatten to the model sequence.",
+   note="bounded: all shapes up to 5 (quick) / 7 (thorough) elements over 4 value sizes at slab 256; walks of 200-900 operations at slab 256/257/512/1024; elements are id-carrying strings of exact encoded size"),
+ "C05": dict(engine="array", ref="5 C05, 3.1, 3.6",
+   text="Thresholds.tla: the arithmetic lemmas behind the size band (two maximal elements fit, an index slab that does not underflow has two children, merge bound, 16-bit header sizes) are checked by TLC for every legal slab size 256..32768. ArrayTree.tla preserves well-formedness in every reachable shape. TreeInv.tla (size band, element limits, root index slab >= 2 children, header copies, count sums, sibling links) is evaluated by TLC on the forest projected from the real slabs after EVERY replayed operation; content is adopted so only structural facts are judged.",
+   note="map half of the property is covered by the map engine when present; projection reads slab fields through verif-tagged exports; bounded as C01"),
  "C14": dict(engine="storage", ref="5 C14, 3.2",
    text="SlabStorage.tla splits both commits into one action per ledger call, each of which may fail; TLC explores every fault position to closure over a 3-identifier universe and proves CommitFailedLosesNothing / CommitOK (ledger = view at commit start) / ViewStable. Every explored history with a failing call is replayed with the same fault placement into the real PersistentSlabStorage and the recorded per-call trace is validated by TLC (commit events strict). Random histories with faults and retries on a larger universe are validated the same way.",
    note="LedgerSim failing calls have no effect; slab payloads are opaque versions; bounded: 3-4 identifiers, 2-3 versions, 1 fault per model history (up to 3 in random drivers); container-level fault histories are covered by the persist engine"),
@@ -45,6 +51,7 @@ def main():
             "add_only": True,
         },
         "engines": [
+            {"name": "array", "path": "spec/ArraySeq.tla spec/ArrayTree.tla spec/TreeInv.tla spec/Thresholds.tla spec/MC_Array.tla spec/ArrayTrace.tla harness/world.go harness/ops.go harness/array_engine.go", "serves_properties": ["C01", "C05", "C06", "C09", "C13", "C17", "C18"], "kind_free_text": "TLC state graph + simulated walks of the array algorithm replayed into the real Array; traces validated against sequence semantics and TreeInv"},
             {"name": "storage", "path": "spec/SlabStorage.tla spec/MC_SlabStorage.tla spec/SlabStorageTrace.tla harness/storage_engine.go", "serves_properties": ["C03", "C04", "C14", "C15"], "kind_free_text": "TLC closure + edge replay + trace validation of PersistentSlabStorage"},
         ],
         "checks": checks,
